@@ -87,13 +87,13 @@ __CPROVER_ensures(FW_POST(this_, sub, 0))
 ;
 #endif
 
-/* position(h): reads the registration vector WITHOUT taking the mutex (reported, DESIGN section 6 row 9).  Functional contract only;
- * the lock-discipline obligation of the model is switched off for this unit unless C16_LOCKCHECK_POSITION is set in the environment. */
+/* position(h): a locked accessor - exactly one critical section, the value read while the mutex is held (the unlocked read of the
+ * original code was a data race, fixed in /repo f804c1e; the lock-discipline obligation of the registration model is on for C03). */
 #ifdef CV_HAS_qw_position
 cv_i64 qw_position(QT *this_, cv_i64 h)
-__CPROVER_requires(cv_exc_pending == 0 && this_ == ps_q && FREE_LOCK && h < rg_n && h == gh_RH && rg_other_idx == RG_NONE)
-__CPROVER_assigns()
-__CPROVER_ensures(__CPROVER_return_value == T._pos && cv_exc_pending == 0)
+__CPROVER_requires(cv_exc_pending == 0 && this_ == ps_q && FREE_LOCK && gh_n_lock == 0 && gh_n_unlock == 0 && h < rg_n && h == gh_RH && rg_other_idx == RG_NONE)
+__CPROVER_assigns(LOCK_ASSIGNS)
+__CPROVER_ensures(__CPROVER_return_value == T._pos && cv_exc_pending == 0 && FREE_LOCK && gh_n_lock == 1 && gh_n_unlock == 1)
 ;
 #endif
 
